@@ -68,6 +68,8 @@ pub struct Interp {
     pub module_cache: HashMap<String, Value>,
     pub resolver: Option<Resolver>,
     pub current_file: Rc<str>,
+    /// repair-model switch: evaluate `x ^ 0.5` with sqrt semantics (only used to attribute a known finding)
+    pub pow_half_as_sqrt: bool,
     next_id: u64,
 }
 
@@ -220,6 +222,7 @@ impl Interp {
             module_cache: HashMap::new(),
             resolver: None,
             current_file: Rc::from("main"),
+            pow_half_as_sqrt: false,
             next_id: 0,
         };
         it.install();
@@ -930,7 +933,13 @@ impl Interp {
                         Sub => x - y,
                         Mul => x * y,
                         Div => x / y,
-                        Pow => pow(x, y),
+                        Pow => {
+                            if self.pow_half_as_sqrt && y == 0.5 {
+                                x.sqrt()
+                            } else {
+                                pow(x, y)
+                            }
+                        }
                         IDiv => (x / y).floor(),
                         Mod => {
                             if y.is_infinite() {
